@@ -50,6 +50,8 @@ def ref_exempt(host, lst):
     if ":" in host:
         return False  # an IPv6 literal is in no IPv4 block and in no DNS domain
     ip = ip_int(host)
+    if ip is None:
+        ip = aton_int(host)  # the other legal spellings of an IPv4 address: 127.1, 2130706433, 0x7f.0.0.1, 0177.0.0.1
     if ip is not None:
         for e in lst:
             if "/" in e:
@@ -74,12 +76,22 @@ def ref_exempt(host, lst):
 
 def ip_int(s):
     parts = s.split(".")
-    if len(parts) != 4 or not all(p.isdigit() and 0 <= int(p) <= 255 for p in parts):
-        return None
+    if len(parts) != 4 or not all(p.isascii() and p.isdigit() and 0 <= int(p) <= 255 and (p == "0" or not p.startswith("0")) for p in parts):
+        return None  # (a leading zero means octal to the resolver: left to aton_int)
     v = 0
     for p in parts:
         v = (v << 8) | int(p)
     return v
+
+
+def aton_int(s):
+    import socket
+    if not s or not all(ch in "0123456789abcdefxABCDEFX." for ch in s):
+        return None
+    try:
+        return int.from_bytes(socket.inet_aton(s), "big")
+    except OSError:
+        return None
 
 
 def ip_str(v):
@@ -135,6 +147,13 @@ def run(res, tier, seed, shard, nshards):
             for lst in (["10.0.0.0/8"], ["0.0.0.0/0"], ["127.0.0.0/8", ".a"], ["10.1.2.3/32", "other.test"], [h6], ["*"], ["10.0.0.0/8", h6], []):
                 decide(h6, False, lst, "ipv6-literal", rule="ipv6")
                 decide(h6, True, lst, "ipv6-literal", rule="ipv6")
+    # (a3) IPv4 targets in their other legal spellings (short forms, one integer, hex / octal octets): same address, same blocks
+    if shard == 4 % nshards:
+        for spelled, dotted in (("127.1", "127.0.0.1"), ("2130706433", "127.0.0.1"), ("0x7f.0.0.1", "127.0.0.1"), ("0177.0.0.1", "127.0.0.1"), ("127.0.0.01", "127.0.0.1"),
+                                ("10.1", "10.0.0.1"), ("10.1.2", "10.1.0.2"), ("0xa000001", "10.0.0.1"), ("192.168.513", "192.168.2.1")):
+            for lst in (["127.0.0.0/8"], ["10.0.0.0/8"], ["192.168.0.0/16", ".a"], ["127.0.0.1/32"], ["10.0.0.1/32", "other.test"], ["172.16.0.0/12"], [dotted], [spelled], []):
+                decide(spelled, False, lst, "ipv4-other-spelling", rule="cidr-other-spelling")
+                res.count("ipv4_other_spellings_checked")
     # (b) IPv4 blocks -------------------------------------------------------------
     for p in range(33):
         if p % nshards != shard:
@@ -185,6 +204,13 @@ def run(res, tier, seed, shard, nshards):
                 env[s] = f"http://{'U' if s.isupper() else 'l'}{'s' if 'https' in s.lower() else 'p'}.proxy.test:{3000 + srcs.index(s)}"
         host = "in.corp.test" if target == "in" else "out.example.test"
         np_list = [".corp.test"]
+        # unrelated variables that other software gives a meaning to (a CGI gateway's REQUEST_METHOD makes urllib distrust HTTP_PROXY;
+        # ALL_PROXY / all_proxy are honoured by curl-like tools): the documented decision does not depend on them
+        noise = {}
+        if ci % 3 == 1:
+            noise = {"REQUEST_METHOD": "GET"} if ci % 2 else {"REQUEST_METHOD": "", "ALL_PROXY": "http://all.proxy.test:1", "all_proxy": "socks5://all.proxy.test:2"}
+            env.update(noise)
+            res.count("proxy_source_cases_with_unrelated_env")
         kw = {}
         if nps == "option":
             kw["no_proxy"] = np_list
@@ -201,7 +227,9 @@ def run(res, tier, seed, shard, nshards):
             continue
         finally:
             H.scrub_env()
-        res.case(("src", sub, secure, nps, target), nontrivial=bool(sub))
+            for k_ in noise:
+                os.environ.pop(k_, None)
+        res.case(("src", sub, secure, nps, target, tuple(sorted(noise))), nontrivial=bool(sub))
         exempt = nps != "none" and target == "in"
         fam = "https_proxy" if secure else "http_proxy"
         allowed = set()
@@ -215,7 +243,7 @@ def run(res, tier, seed, shard, nshards):
         res.count("exempt_cases" if exempt else ("proxied_cases" if allowed else "direct_cases"))
         g = (got[0].lower(), got[1]) if got[0] else None
         allowed = {(a.lower(), b) for a, b in allowed}
-        case = {"sources": sub, "secure": secure, "no_proxy_source": nps, "target": host}
+        case = {"sources": sub, "secure": secure, "no_proxy_source": nps, "target": host, "unrelated_env": noise}
         if not allowed:
             if g is not None:
                 why = "exempt" if exempt else "no proxy configured for this scheme"
